@@ -227,8 +227,22 @@ def ceiling_clamp(cx, iid):
                     hit = True
                     e = show(b.operand_expr(rv["ops"][rv["fields"].index("tx_bandwidth_limit")]))
                     inst.site(b, loc, "tx_bandwidth_limit = " + e[:90])
-                    if not re.fullmatch(rx_comm("Ord::min", r"cast<u32>\(arg1\.config\.endpoint_config\.max_send_rate\)", peer), e):
-                        inst.violation(b.path, "tx_bandwidth_limit", "negotiated ceiling is `%s`, expected min(own max_send_rate, peer max_receive_rate)" % e, at=b.span_at(loc))
+                    # min(saturate_u32(own max_send_rate), peer max_receive_rate): the configured value is a usize and must be
+                    # saturated, not wrapped, on its way into the 32-bit rate domain (F18: 2^32 B/s became 0)
+                    from props.shared import saturated_u32_of, _split_top
+                    okc = False
+                    mmin = re.fullmatch(r"Ord::min\((.*)\)", e)
+                    if mmin:
+                        ops_ = _split_top(mmin.group(1))
+                        if len(ops_) == 2:
+                            for own_, peer_ in ((ops_[0], ops_[1]), (ops_[1], ops_[0])):
+                                if re.fullmatch(peer, peer_) and saturated_u32_of(own_) == "arg1.config.endpoint_config.max_send_rate":
+                                    okc = True
+                                if re.fullmatch(peer, peer_) and own_ == "cast<u32>(arg1.config.endpoint_config.max_send_rate)":
+                                    inst.violation(b.path, "tx_bandwidth_limit wraps", "the configured ceiling enters the negotiated one as `%s`: a wrapping cast (2^32 B/s becomes 0); the sibling limits are saturated" % own_, at=b.span_at(loc))
+                                    okc = True
+                    if not okc:
+                        inst.violation(b.path, "tx_bandwidth_limit", "negotiated ceiling is `%s`, expected min(own max_send_rate saturated to u32, peer max_receive_rate)" % e, at=b.span_at(loc))
             if not hit:
                 inst.violation(b.path, "half_connection::Config", "Config literal not found (anchor)")
         # ... and the peer's max_receive_rate is what the peer configured
@@ -261,6 +275,9 @@ def ceiling_clamp(cx, iid):
 
 
 SELFTEST = [
+    {"name": "F18 re-introduced: the configured ceiling narrowed with a wrapping cast",
+     "edits": [{"file": "src/client/mod.rs", "old": "(self.config.endpoint_config.max_send_rate.min(u32::MAX as usize) as u32).min(frame.max_receive_rate)", "new": "(self.config.endpoint_config.max_send_rate as u32).min(frame.max_receive_rate)"}],
+     "expect": ["C13.d"]},
     {"name": "refill time recorded only on the first refill",
      "edits": [{"file": "src/half_connection/mod.rs", "old": "        }\n        self.time_last_flushed = Some(now);", "new": "        } else {\n            self.time_last_flushed = Some(now);\n        }"}],
      "expect": ["C13.f"]},
